@@ -49,6 +49,17 @@ func typeUniverse() []hTerm {
 	}
 	out = append(out, hf("fn:Union/parsed", tname("/number"), tname("/foo")), hf("fn:Union/parsed", tname("/string"), tname("/foo/bar")))
 	out = append(out, hf("fn:Singleton", tname("/foo/x")), hf("fn:Singleton", hc(1)))
+	// required against optional fields of the same name, optional against optional
+	out = append(out, hf("fn:Struct", tname("/a"), tname("/string")),
+		hf("fn:Struct", hf("fn:opt", tname("/a"), tname("/number"))),
+		hf("fn:Struct", hf("fn:opt", tname("/a"), tname("/string"))),
+		hf("fn:Struct", tname("/a"), tname("/number"), hf("fn:opt", tname("/b"), tname("/any"))))
+	// tagged unions (a variant without fields that is not the last one; variants with a field)
+	out = append(out,
+		hf("fn:TaggedUnion", tname("/kind"), tname("/start"), hf("fn:Struct"), tname("/stop"), hf("fn:Struct", tname("/a"), tname("/number"))),
+		hf("fn:TaggedUnion", tname("/kind"), tname("/start"), hf("fn:Struct"), tname("/mid"), hf("fn:Struct"), tname("/stop"), hf("fn:Struct", tname("/a"), tname("/number"))),
+		hf("fn:Struct", tname("/kind"), hf("fn:Singleton", tname("/start"))),
+		hf("fn:Struct", tname("/kind"), hf("fn:Singleton", tname("/stop")), tname("/a"), tname("/number")))
 	return out
 }
 
@@ -61,8 +72,92 @@ func constUniverse(k *typeKit) []*ordabs.Rec {
 		k.list(), k.list(one), k.list(n("/foo/x")), k.list(n("/foobar/z")), k.list(n("/foo/bar/y"), n("/foo/x")),
 		k.pair(one, s("s")), k.pair(n("/foo/x"), one), k.pair(n("/foo/bar/y"), s("s")), k.pair(n("/foobar/z"), s("s")),
 		k.mapc(), k.mapc(n("/foo/x"), one), k.mapc(n("/q"), one), k.mapc(n("/foobar/z"), s("s")), k.mapc(n("/foo/bar/y"), one), k.mapc(one, one),
+		k.structc(n("/kind"), n("/start")), k.structc(n("/kind"), n("/mid")), k.structc(n("/kind"), n("/stop"), n("/a"), one), k.structc(n("/kind"), n("/other")), k.structc(),
 		k.structc(n("/a"), one), k.structc(n("/a"), n("/foo/x")), k.structc(n("/a"), n("/foo/bar/y")), k.structc(n("/a"), one, n("/b"), s("s")), k.structc(n("/a"), one, n("/b"), one), k.structc(n("/a"), s("s")),
 	}
+}
+
+// structLike: struct types and tagged unions (unions of struct types).
+func structLike(t hTerm) bool { return t.name == "fn:Struct" || t.name == "fn:TaggedUnion" }
+
+// typeLabels returns the field labels a struct-like type mentions (required or optional, in any variant).
+func typeLabels(t hTerm) map[string]bool {
+	out := map[string]bool{}
+	var fromStruct func(s hTerm)
+	fromStruct = func(s hTerm) {
+		for i := 0; i < len(s.args); i++ {
+			a := s.args[i]
+			if a.kind == "fn" && a.name == "fn:opt" {
+				if len(a.args) > 0 {
+					out[a.args[0].name] = true
+				}
+				continue
+			}
+			out[a.name] = true
+			i++ // skip the field's type
+		}
+	}
+	switch t.name {
+	case "fn:Struct":
+		fromStruct(t)
+	case "fn:TaggedUnion":
+		if len(t.args) > 0 {
+			out[t.args[0].name] = true
+		}
+		for i := 2; i < len(t.args); i += 2 {
+			fromStruct(t.args[i])
+		}
+	}
+	return out
+}
+
+// hasLabelOutside: the constant is a struct value with a field whose label is not in labels (the witness of a
+// width-subtyping violation: closed-record membership rejects it, the width rule of conformance ignores it).
+func hasLabelOutside(k *typeKit, cst *ordabs.Rec, labels map[string]bool) bool {
+	if t, _ := cst.Fields["Type"].(int64); t != k.tag["StructShape"] {
+		return false
+	}
+	fst, _ := cst.Fields["fst"].(*ordabs.Obj)
+	snd, _ := cst.Fields["snd"].(*ordabs.Obj)
+	for fst != nil {
+		if lab, _ := fst.Fields["fst"].(*ordabs.Obj); lab != nil {
+			if !labels[fmt.Sprint(lab.Fields["Symbol"])] {
+				return true
+			}
+		}
+		if snd == nil {
+			break
+		}
+		fst, _ = snd.Fields["fst"].(*ordabs.Obj)
+		snd, _ = snd.Fields["snd"].(*ordabs.Obj)
+	}
+	return false
+}
+
+// tagOutside: the constant is a struct value whose tag field holds a name that is not one of the tagged union's tags.
+func tagOutside(k *typeKit, cst *ordabs.Rec, tu hTerm) bool {
+	if t, _ := cst.Fields["Type"].(int64); t != k.tag["StructShape"] || len(tu.args) == 0 {
+		return false
+	}
+	tags := map[string]bool{}
+	for i := 1; i < len(tu.args); i += 2 {
+		tags[tu.args[i].name] = true
+	}
+	fst, _ := cst.Fields["fst"].(*ordabs.Obj)
+	snd, _ := cst.Fields["snd"].(*ordabs.Obj)
+	for fst != nil {
+		lab, _ := fst.Fields["fst"].(*ordabs.Obj)
+		val, _ := fst.Fields["snd"].(*ordabs.Obj)
+		if lab != nil && val != nil && fmt.Sprint(lab.Fields["Symbol"]) == tu.args[0].name {
+			return !tags[fmt.Sprint(val.Fields["Symbol"])]
+		}
+		if snd == nil {
+			break
+		}
+		fst, _ = snd.Fields["fst"].(*ordabs.Obj)
+		snd, _ = snd.Fields["snd"].(*ordabs.Obj)
+	}
+	return false
 }
 
 func checkC12(c *core.Ctx) {
@@ -123,7 +218,7 @@ func c12Evaluate(c *core.Ctx, rSound, rUpper, rLower string) {
 		}
 	}
 	// known finding: map keys are contravariant in TypeConforms although membership is covariant
-	var soundBad, mapBad, structBad string
+	var soundBad, mapBad, structBad, tagBad string
 	affirmed := 0
 	for i := range types {
 		for j := range types {
@@ -145,7 +240,12 @@ func c12Evaluate(c *core.Ctx, rSound, rUpper, rLower string) {
 						if mapBad == "" {
 							mapBad = msg
 						}
-					case types[i].name == "fn:Struct" && types[j].name == "fn:Struct" && len(types[i].args) > len(types[j].args):
+					case types[j].name == "fn:TaggedUnion" && structLike(types[i]) && tagOutside(k, consts[x], types[j]):
+						// the right-hand tagged union is compared with its tag widened to /name
+						if tagBad == "" {
+							tagBad = msg
+						}
+					case structLike(types[i]) && structLike(types[j]) && hasLabelOutside(k, consts[x], typeLabels(types[j])):
 						// the left type mentions a field the right one does not: the width rule
 						if structBad == "" {
 							structBad = msg
@@ -163,6 +263,7 @@ func c12Evaluate(c *core.Ctx, rSound, rUpper, rLower string) {
 	c.Check(soundBad == "" && nonTrivial > 100, rSound, conf.Name, conf.Decl.Pos(), fmt.Sprintf("%d affirmed conformances among %d pairs, all sound for the %d constants (%d non-trivial memberships)", affirmed, len(types)*len(types), len(consts), nonTrivial), soundBad)
 	c.Check(mapBad == "", rSound, conf.Name+":map-key-variance", conf.Decl.Pos(), "map types are compared covariantly in the key", mapBad)
 	c.Check(structBad == "", rSound, conf.Name+":struct-width", conf.Decl.Pos(), "struct conformance agrees with struct membership", structBad)
+	c.Check(tagBad == "", rSound, conf.Name+":tagged-union-tag", conf.Decl.Pos(), "conformance to a tagged union respects its set of tags", tagBad)
 
 	// bounds
 	if rUpper == "" {
@@ -178,7 +279,8 @@ func c12Evaluate(c *core.Ctx, rSound, rUpper, rLower string) {
 	n := 0
 	for i := range types {
 		for j := range types {
-			if (types[i].name == "fn:Map" && types[j].name == "fn:Map") || (types[i].name == "fn:Struct" && types[j].name == "fn:Struct" && len(types[i].args) != len(types[j].args)) {
+			if (types[i].name == "fn:TaggedUnion" && types[j].name == "fn:TaggedUnion" && types[i].String() != types[j].String()) ||
+				(types[i].name == "fn:Map" && types[j].name == "fn:Map") || (structLike(types[i]) && structLike(types[j]) && fmt.Sprint(sortedKeys(typeLabels(types[i]))) != fmt.Sprint(sortedKeys(typeLabels(types[j])))) {
 				continue // bounds of two map types / two struct types inherit the two recorded conformance findings
 			}
 			args := []ordabs.Value{tv[i], tv[j]}
